@@ -603,4 +603,88 @@ def r7_publish_last(a, tier):
     return rep
 
 
-RULES = [r1_cache_key, r2_write_through, r3_inventory, r4_parse_is_readonly, r5_order_dependence, r6_shared_config, r7_publish_last]
+_MUTATORS = {'append', 'extend', 'insert', 'update', 'add', 'clear', 'pop', 'popitem', 'remove', 'discard', 'sort', 'reverse', 'setdefault'}
+_CFG_NAMES = ('config', '_config', 'cfg', 'builderconfig', 'parserconfig', 'settings_config', '_active_config')
+_FRESH_CALLS = ('list', 'dict', 'set', 'sorted', 'tuple', 'copy', 'deepcopy', 'frozenset')
+
+
+def r8_config_values_not_mutated(a, tier):
+    rep = RuleReport(
+        'C10.R8',
+        'a value read from a configuration object is not changed in place: configuration copies (Config.override / new / replace) are '
+        'shallow, so a list, dict or set held by one configuration is held by every copy of it and by the caller who passed it. In the '
+        'library packages, a local that aliases `<config>.<field>` of a mutable field (declared list / dict / set in a Config dataclass) is '
+        'never the target of `+=`, a subscript store or a mutating method (append, extend, update, ...) before it was rebound to a fresh '
+        'container; nor is `<config>.<field>` itself',
+        floor=1,
+    )
+    # mutable fields of the configuration dataclasses
+    mutable: dict[str, str] = {}
+    cfg_classes = [q for q in a.p.classes if q.split('.')[-1].endswith('Config') and q.startswith('tatsu.')]
+    for q in cfg_classes:
+        ci = a.p.classes[q]
+        for st in ci.node.body:
+            if isinstance(st, ast.AnnAssign) and isinstance(st.target, ast.Name):
+                ann = norm(st.annotation)
+                head = ann.split('[')[0].split('.')[-1].strip('\'"').lower()
+                if head in ('list', 'dict', 'set', 'mutablemapping', 'mutablesequence', 'defaultdict'):
+                    mutable[st.target.id] = f'{q.split(".")[-1]}.{st.target.id}: {ann}'
+    if not mutable:
+        raise AnalysisError('C10.R8: no mutable field found in the configuration dataclasses (anchor moved)')
+    rep.add({'mutable_configuration_fields': sorted(mutable.values())})
+
+    def cfg_field(e):
+        """<cfg>.<field> with <cfg> a configuration-looking receiver and <field> a mutable field -> field name"""
+        if isinstance(e, ast.Attribute) and e.attr in mutable:
+            recv = e.value
+            last = recv.id if isinstance(recv, ast.Name) else recv.attr if isinstance(recv, ast.Attribute) else ''
+            if last in _CFG_NAMES or last.endswith('config'):
+                return e.attr
+        return None
+    n_alias = 0
+    for f in a.p.functions.values():
+        mname = f.module.name
+        if not mname.startswith('tatsu.') or mname.startswith(('tatsu.boot', 'tatsu.tool', 'tatsu.g2e')):
+            continue
+        if f.cls is not None and f.cls.qualname in cfg_classes and f.name in ('__post_init__', '__init__', '__setstate__', '__getstate__'):
+            continue  # a configuration object under construction owns its containers
+        aliases: dict[str, str] = {}
+        stmts = sorted([n for n in walk_no_defs(f.node) if isinstance(n, (ast.Assign, ast.AnnAssign, ast.AugAssign, ast.Expr, ast.Delete, ast.For))],
+                       key=lambda n: (n.lineno, n.col_offset))
+        for st in stmts:
+            if isinstance(st, (ast.Assign, ast.AnnAssign)):
+                val = st.value
+                tgts = st.targets if isinstance(st, ast.Assign) else [st.target]
+                for t in tgts:
+                    if isinstance(t, ast.Name):
+                        fld = cfg_field(val) if val is not None else None
+                        if fld:
+                            aliases[t.id] = fld
+                            n_alias += 1
+                            rep.add({'fn': f.qualname, 'alias': t.id, 'of': norm(val)})
+                        else:
+                            aliases.pop(t.id, None)
+                    elif isinstance(t, ast.Subscript):
+                        base = t.value
+                        fld = aliases.get(base.id) if isinstance(base, ast.Name) else cfg_field(base)
+                        if fld:
+                            rep.fail(f.qualname, f'config-mutated:{fld}:subscript', f'`{norm(st)[:70]}` stores into the container of the configuration field {mutable[fld]}: '
+                                     f'the caller\'s configuration (and every shallow copy of it) is altered by this call', f'{f.module.relpath}:{st.lineno}')
+            elif isinstance(st, ast.AugAssign):
+                t = st.target
+                fld = aliases.get(t.id) if isinstance(t, ast.Name) else cfg_field(t)
+                if fld:
+                    rep.fail(f.qualname, f'config-mutated:{fld}:augassign', f'`{norm(st)[:70]}` extends the container of the configuration field {mutable[fld]} in place: '
+                             f'the list is shared with the configuration the caller passed (copies are shallow), so a later call with other arguments '
+                             f'sees what this call added', f'{f.module.relpath}:{st.lineno}')
+            elif isinstance(st, ast.Expr) and isinstance(st.value, ast.Call) and isinstance(st.value.func, ast.Attribute) and st.value.func.attr in _MUTATORS:
+                recv = st.value.func.value
+                fld = aliases.get(recv.id) if isinstance(recv, ast.Name) else cfg_field(recv)
+                if fld:
+                    rep.fail(f.qualname, f'config-mutated:{fld}:{st.value.func.attr}', f'`{norm(st)[:70]}` mutates the container of the configuration field {mutable[fld]} '
+                             f'in place: the caller\'s configuration is altered by this call', f'{f.module.relpath}:{st.lineno}')
+    rep.add({'aliases_of_mutable_configuration_fields_followed': n_alias})
+    return rep
+
+
+RULES = [r1_cache_key, r2_write_through, r3_inventory, r4_parse_is_readonly, r5_order_dependence, r6_shared_config, r7_publish_last, r8_config_values_not_mutated]
